@@ -175,7 +175,8 @@ func genCfg(rt *rapid.T) SysCfg {
 		DBBulk:        rapid.SampledFrom([]int64{0, 0, 1, 300, 100000000}).Draw(rt, "cfg.bulk"),
 		ChSample:      rapid.SampledFrom([]int{1, 1, 2, 3}).Draw(rt, "cfg.chs"),
 		ChTS:          rapid.SampledFrom([]int{1, 1, 2}).Draw(rt, "cfg.chts"),
-		RetryAttempts: rapid.IntRange(1, 4).Draw(rt, "cfg.retry"),
+		// 0 = "no attempt at all": retry-go then never calls the insert and reports an (empty) error, every push is refused
+		RetryAttempts: rapid.SampledFrom([]int{1, 2, 3, 4, 1, 2, 3, 4, 0}).Draw(rt, "cfg.retry"),
 		RetryTimeoutS: rapid.IntRange(0, 2).Draw(rt, "cfg.retrys"),
 		WriteTimeoutS: rapid.SampledFrom([]int{1, 3, 30}).Draw(rt, "cfg.wto"),
 		Cluster:       rapid.SampledFrom([]string{"", "", "", "c1"}).Draw(rt, "cfg.cluster"),
